@@ -145,7 +145,8 @@ def task(pairs, units):
                     one(Q, name, op, a, b, 'Q op the same Q object', unit, st, True)
             # three-argument pow with a Quantity base
             for m in (5, -3, 0, False, 1):
-                if isinstance(a, int) and isinstance(b, int):
+                # (only where a ** b itself is small: an implementation that ignores the modulus must still terminate here)
+                if isinstance(a, int) and isinstance(b, int) and not too_big('pow', a, b):
                     exp = ev(pow, a, b, m)
                     got = ev(pow, Q(a, unit), b, m)
                     got2 = ev(pow, Q(a, unit), Q(b, unit), m)
